@@ -19,7 +19,7 @@ EXPLANATION = (
     ' RecordIdentifier happens in a validating constructor; a derived Deserialize building it from unchecked bytes violates'
     ' it; the validating constructor evaluated on lengths around 64 accepts exactly those >= 64), by the option-field typestate rule, or by a table line naming one site with a reason; anything else is '
     'UNAUDITED; (R4) FilterKind Display/FromStr tag agreement, the Display -> FromStr round trip evaluated on concrete sample filters '
-    '(payloads containing the separator, non-UTF-8 payloads) and DocTicket::decode_bytes rejecting an empty node list, Capability::from_raw evaluated on every kind byte class; (R5) author-heads reports: AuthorHeads::encode evaluated on (heads, size limit) cells and decode feeding every pair to insert (shared with C13.R3). NOT'
+    '(payloads containing the separator, non-UTF-8 payloads) and DocTicket::decode_bytes rejecting an empty node list, Capability::from_raw evaluated on every kind byte class; (R5) author-heads reports: AuthorHeads::encode evaluated on (heads, size limit) cells and decode feeding every pair to insert (shared with C13.R3); (R6) a frame the codec rejects ends the session with a reported error on both sides (the protocol tables of C10.R2, whose frame scripts contain decode errors at every position). NOT'
     ' decided: byte-exact round trip for all values and chunkings (postcard / tokio_util trusted), pinned encodings (the '
     'snapshot tests cover them).'
 )
@@ -609,9 +609,33 @@ def r5(ctx):
     ctx.floor("C09.R5", 3)
 
 
+def r6(ctx):
+    """what the session functions do with a frame the codec rejects (garbage, oversized, truncated): the session ends with a
+    reported error on both sides - never with success, as if the bytes had been a message (shared with C10.R2, whose frame
+    scripts contain decode errors at every position)"""
+    from . import C10
+    sub = type(ctx)(ctx.prop, ctx.tier, ctx.facts, ctx.cfg)
+    C10.r1(sub)
+    C10.r2(sub)
+    n = 0
+    for o in sub.obligations:
+        if "protocol-table" not in o["key"]:
+            continue
+        o = dict(o)
+        o["key"] = o["key"].replace("C10.R2", "C09.R6")
+        o["rule"] = "C09.R6"
+        ctx.obligations.append(o)
+        n += 1
+        if o["status"] != "holds":
+            ctx.violations.append(o)
+    ctx.analysed_bodies |= sub.analysed_bodies
+    ctx.floor("C09.R6", 2)
+
+
 def run(ctx):
     ctx.run_rule("C09.R1", r1)
     ctx.run_rule("C09.R2", r2)
     ctx.run_rule("C09.R3", r3)
     ctx.run_rule("C09.R4", r4)
     ctx.run_rule("C09.R5", r5)
+    ctx.run_rule("C09.R6", r6)
